@@ -42,7 +42,7 @@ Definition veq (a b : valid) : Prop := forall k, vget a k = vget b k.
 (* concrete invariant between requests: every fid in the table has exactly one
    reference (nothing leaked, nothing dropped), no duplicate keys *)
 Definition FInv (ft : ftab) : Prop :=
-  NoDup (map fst ft) /\ Forall (fun kr => f_ref (snd kr) = 1%Z) ft.
+  NoDup (map fst ft) /\ Forall (fun kr => f_ref (snd kr) = 1%Z) ft /\ fget ft c_NOFID = None.
 
 Definition CInv (cfg : srvcfg) (c : conn) : Prop :=
   FInv (c_fids c) /\ c_IOHDRSZ <= c_msize c /\ c_msize c <= s_msize cfg /\ s_msize cfg <= u32max.
@@ -83,7 +83,7 @@ Definition rules_ok (cfg : srvcfg) (c : conn) (t : msg) (sc : script) : bool :=
   | Twalk_ fid nf names =>
     match fget (c_fids c) fid with
     | Some fr => negb (f_opened fr) && ((length names =? 0)%nat || fid_isdir fr)
-                 && ((fid =? nf) || negb (is_valid c nf))
+                 && ((fid =? nf) || (negb (nf =? c_NOFID) && negb (is_valid c nf)))
     | None => false end
   | Topen_ fid mode =>
     match fget (c_fids c) fid with
